@@ -419,6 +419,8 @@ func (p *parser) parseFunctionAliases(params []ast.ParameterInfo, validate func(
 			} else if err := p.validateFunctionAlias(alias, params); err == nil { // check that the alias fits the function
 				if ok, isFun, existingAlias, pTokens := p.aliasExists(alias); ok {
 					p.err(ddperror.SEM_ALIAS_ALREADY_TAKEN, v.Range, ddperror.MsgAliasAlreadyExists(v.Literal, existingAlias.Decl().Name(), isFun))
+				} else if containsAliasTokens(funcAliasTokens, pTokens) {
+					p.err(ddperror.SEM_ALIAS_ALREADY_TAKEN, v.Range, fmt.Sprintf("Der Alias %s wurde in dieser Deklaration bereits angegeben", v.Literal))
 				} else {
 					funcAliases = append(funcAliases, &ast.FuncAlias{Tokens: alias, Original: t, Func: nil, Args: paramTypesMap, Negated: negated})
 					funcAliasTokens = append(funcAliasTokens, pTokens)
@@ -1158,6 +1160,27 @@ func (p *parser) structDeclaration() ast.Declaration {
 	return decl
 }
 
+// reports wether aliases contains an alias that consists of the same tokens as alias
+// (the aliases of a declaration are only inserted into p.aliases when the whole list was parsed)
+func containsAliasTokens(aliases [][]*token.Token, alias []*token.Token) bool {
+	for _, other := range aliases {
+		if len(other) != len(alias) {
+			continue
+		}
+		equal := true
+		for i := range other {
+			if !tokenEqual(other[i], alias[i]) {
+				equal = false
+				break
+			}
+		}
+		if equal {
+			return true
+		}
+	}
+	return false
+}
+
 func (p *parser) parseStructAliases(fieldsForValidation []*ast.VarDecl) (structAliases []*ast.StructAlias, structAliasTokens [][]*token.Token) {
 	p.consumeSeq(token.UND, token.ERSTELLEN, token.SIE, token.SO, token.COLON, token.STRING)
 	var rawAliases []*token.Token
@@ -1179,6 +1202,8 @@ func (p *parser) parseStructAliases(fieldsForValidation []*ast.VarDecl) (structA
 			} else if err, args := p.validateStructAlias(aliasTokens, fieldsForValidation); err == nil {
 				if ok, isFunc, existingAlias, pTokens := p.aliasExists(aliasTokens); ok {
 					p.err(ddperror.SEM_ALIAS_ALREADY_TAKEN, rawAlias.Range, ddperror.MsgAliasAlreadyExists(rawAlias.Literal, existingAlias.Decl().Name(), isFunc))
+				} else if containsAliasTokens(structAliasTokens, pTokens) {
+					p.err(ddperror.SEM_ALIAS_ALREADY_TAKEN, rawAlias.Range, fmt.Sprintf("Der Alias %s wurde in dieser Deklaration bereits angegeben", rawAlias.Literal))
 				} else {
 					structAliases = append(structAliases, &ast.StructAlias{Tokens: aliasTokens, Original: *rawAlias, Struct: nil, Args: args})
 					structAliasTokens = append(structAliasTokens, pTokens)
